@@ -96,3 +96,47 @@ Proof.
   intros ccrc rs n main m Hwf Hcrc Hmode Hn Hparts Hst. unfold open_image. rewrite split_mk_image by exact Hparts.
   unfold recover, recover_with. rewrite replay_cut_mode2 by assumption. unfold state_at in Hst. rewrite Hst. reflexivity.
 Qed.
+
+(* ---- the stage model *)
+Require Import IW.WAL.Proto.
+
+(* whatever the writers do, the result of backup_run is an image in the sense of mk_image: the main file as it
+   was after the stage-2 checkpoint, followed by the log as it is after the stage-5 savepoint *)
+Theorem backup_run_is_image : forall c s0 ts2 ts5 evM evA,
+  exists main log live, backup_run c s0 ts2 ts5 evM evA = (mk_image main log, live) /\
+    main = p_disk (fst (checkpoint c (set_stage s0 BKP_WAL_CLEANUP) false ts2)) /\ log = p_log live /\ p_stage live = 0.
+Proof.
+  intros c s0 ts2 ts5 evM evA. unfold backup_run.
+  destruct (checkpoint c (set_stage s0 BKP_WAL_CLEANUP) false ts2) as [s1 e1]. cbn [fst].
+  destruct (run c (set_stage s1 BKP_MAIN_COPY) evM) as [s2 e2].
+  destruct (flush_wl c (set_stage s2 BKP_WAL_COPY1) false) as [s3 e3].
+  destruct (run c s3 evA) as [s4 e4].
+  destruct (savepoint c (set_stage s4 BKP_WAL_COPY2) ts5 true) as [s5 e5].
+  exists (p_disk s1), (p_log s5), (set_stage s5 0). repeat split; reflexivity.
+Qed.
+
+(* A checkpoint made by a writer while the backup is in stage WAL_COPY1 leaves a reset mark in the image's log.
+   The records before the mark were applied to the LIVE main file only - the image's main part is older - so
+   the image must be replayed from the start of its log (recover_mode 2), not from the mark (recover_mode 1):
+   concrete run of the stage model in which the two differ. *)
+Definition rm_main : bytes := le_enc 4 WAL_IWFSM_MAGICK ++ repeat 0 73 ++ le_enc 4 IWKV_MAGIC ++ repeat 0 4015.
+Definition rm_s0 : pstate := mkP [] [] rm_main 0 0 false.
+Definition rm_cfg : pcfg := mkC 4084 false.
+Definition rm_evA : list event := [VWrite 100 [1]; VCheckpoint 7; VWrite 101 [2]].
+
+(* (verdict, byte 100, byte 101) of the image opened in mode 2, of the same parts replayed in mode 1, and bytes
+   100/101 of the live main file with "a reset mark is pending" *)
+Definition rm_summary : option ((verdict * Z * Z) * (verdict * Z * Z) * (Z * Z * bool)) :=
+  let (img, live) := backup_run rm_cfg rm_s0 5 9 [] rm_evA in
+  match split_image img with
+  | Some (main, log) =>
+    let '(v2, m2, _) := recover false 2 0 log main in
+    let '(v1, m1, _) := recover false 1 0 log main in
+    Some ((v2, nth 100 m2 0, nth 101 m2 0), (v1, nth 100 m1 0, nth 101 m1 0),
+          (nth 100 (p_disk live) 0, nth 101 (p_disk live) 0, 0 <? p_rfoff live))
+  | None => None
+  end.
+
+Theorem image_replay_from_mark_refuted :
+  rm_summary = Some ((VOk, 1, 2), (VOk, 0, 2), (1, 0, true)).
+Proof. vm_compute. reflexivity. Qed.
